@@ -5,6 +5,7 @@
 -/
 import Aqv.Lemmas.Pow
 import Aqv.Model.PowGen
+import Aqv.Lemmas.Translated.Params
 namespace Aqv.Props.C14
 open Aqv Aqv.Consensus Aqv.Pow
 
@@ -217,5 +218,21 @@ example : mine Gen.powParams toyHs 3 650 0 toySeal.hnn 0 10 = .panic ∧ mine Ge
 example : getBlockVersion (cfgOf Aqv.Gen.Params.testnet2) 7 = 2 ∧ getBlockVersion (cfgOf Aqv.Gen.Params.testnet2) 8 = 3 ∧
     getBlockVersion (cfgOf Aqv.Gen.Params.testnet2) 18 = 3 ∧ getBlockVersion (cfgOf Aqv.Gen.Params.testnet2) 19 = 4 ∧
     getBlockVersion (cfgOf Aqv.Gen.Params.mainnet) 22799 = 1 ∧ getBlockVersion (cfgOf Aqv.Gen.Params.mainnet) 22800 = 2 := by decide
+
+/-! ### tie by translation (T-gen `translated`, DESIGN 2.2 mini-translator): (*ChainConfig).GetBlockVersion
+
+params.(*ChainConfig).GetBlockVersion (with IsHF and isForked) is translated from the go/ssa form of the tree under test on
+every run (`Aqv.Gen.Translated`; `*big.Int` = `Option Int`, the map `c.HF` = a function, result `none` = panic).  On the fork
+map of the model the translated code panics exactly for a nil height and otherwise returns the model's `getBlockVersion`,
+the version selector every seal theorem above is stated on (proofs in `Aqv.Lemmas.Translated.Params`). -/
+theorem getBlockVersion_code_is_model (c : Config) (height : Nat) :
+    Aqv.Gen.Translated.ChainConfig_GetBlockVersion (Aqv.Lemmas.Translated.hfMapOf c) (some (height : Int))
+      = some (UInt8.ofNat (getBlockVersion c height)) ∧
+    Aqv.Gen.Translated.ChainConfig_GetBlockVersion (Aqv.Lemmas.Translated.hfMapOf c) none = none :=
+  ⟨Aqv.Lemmas.Translated.ChainConfig_GetBlockVersion_translated_eq c height,
+   Aqv.Lemmas.Translated.ChainConfig_GetBlockVersion_translated_nil _⟩
+
+example : Aqv.Gen.Translated.ChainConfig_GetBlockVersion (Aqv.Lemmas.Translated.hfMapOf ⟨1, [(5, 10), (8, 20), (9, 30)]⟩) (some 25)
+    = some 3 := by decide
 
 end Aqv.Props.C14
